@@ -22,12 +22,13 @@ enum {
   PV_NO_COOKIE,       /* perfect reply but without a cookie, to a server that has proven cookie support */
   PV_NO_COOKIE_FORMERR, /* FORMERR without OPT (what a pre-EDNS server would say), right id and question */
   PV_NO_COOKIE_ERR,     /* SERVFAIL / REFUSED with OPT but without a cookie */
+  PV_NOT_A_RESPONSE,    /* perfect in every matched attribute, but the QR bit says it is a query (an echo, a reflected request) */
   PV__COUNT
 };
 static const char *const pv_names[PV__COUNT] = { "wrong-id",        "wrong-name",        "wrong-type",   "wrong-class",
                                                  "wrong-case",      "wrong-addr-far",    "wrong-addr-near", "wrong-socket",
                                                  "no-question",     "wrong-client-cookie", "replay-old", "no-cookie",
-                                                 "no-cookie-formerr", "no-cookie-error" };
+                                                 "no-cookie-formerr", "no-cookie-error", "not-a-response" };
 
 static int      prov_adv_on;
 static vh_rng_t adv_rng;
@@ -425,6 +426,9 @@ static void prov_inject_ex(int forced_txi, int forced_v, int64_t delay_us)
   prov_forged_total++;
   raw    = srv_out.b;
   rawlen = srv_out.len;
+  if (v == PV_NOT_A_RESPONSE && rawlen > 2) {
+    raw[2] &= 0x7f;
+  }
   if (v == PV_WRONG_SOCKET) {
     /* deliver on another open UDP socket (as if it came from THAT socket's server) */
     int other = -1, f;
